@@ -391,6 +391,52 @@ func runC12(c *Ctx) {
 		c.verdict(n >= 1, c.nm(fn)+" | the idle generation is moved on somewhere", c.P.Pos(fn.Pos()), fmt.Sprintf("%d store(s) to progressGen", n), "progressGen is never moved on: a wake left over from an earlier idle window counts as current")
 	})
 
+	c.rule("C12.G3", "the retry cap is a cap: in the failed-result arm of workDispatcher a job goes back on the work heap only on an edge where the batch has no retry limit (noRetryMax) or the job's tries were found below the batch's maxRetries by an ordering comparison of the two (tries < maxRetries, in whatever spelling); a cap worked out by unsigned subtraction and tested for equality wraps around for the boundary cap 0 and re-issues the request another 255 times", func() {
+		fn := c.fn(fnDispatch)
+		push := c.funcObj("container/heap", "Push")
+		jobF := c.field("query", "jobResult", "job")
+		triesF := c.field("query", "queryJob", "tries")
+		repush := func(in ssa.Instruction) bool {
+			if !callTo(push)(in) {
+				return false
+			}
+			return ir.DerivesFrom(ir.CallOf(in).Args[1], func(x ssa.Value) bool {
+				fa, ok := x.(*ssa.FieldAddr)
+				return ok && ir.FieldOfAddr(fa) == jobF
+			})
+		}
+		isTries := func(v ssa.Value) bool { return isLoadOfPath(v, triesF) }
+		isMax := c.loadsFieldNamed("batchProgress", "maxRetries")
+		isMaxLoad := func(v ssa.Value) bool {
+			_, isLoad := ir.Strip(v).(*ssa.UnOp)
+			return isLoad && isMax(v)
+		}
+		g, odd := relGuard("job.tries < batch.maxRetries", fn, isTries, isMaxLoad, token.LSS)
+		if len(odd) > 0 {
+			c.fail(c.nm(fn)+" | comparison shape of the retry cap", c.P.Pos(fn.Pos()), "tries and maxRetries are compared by "+join(odd)+": the cap is off by one")
+		}
+		// noRetryMax = true
+		noMax := c.loadsFieldNamed("batchProgress", "noRetryMax")
+		gn := guard{name: "batch.noRetryMax = true"}
+		ir.Instrs(fn, func(in ssa.Instruction) {
+			u, ok := in.(*ssa.UnOp)
+			if !ok || u.Op != token.MUL || !noMax(u) {
+				return
+			}
+			gn.found++
+			for _, b := range ir.TrueBranches(u) {
+				if b.Pol < 0 {
+					if b.Via != nil {
+						gn.weak = append(gn.weak, guardSite{b, in})
+					}
+					continue
+				}
+				gn.sites = append(gn.sites, guardSite{b, in})
+			}
+		})
+		c.guarded(fn, unionGuard("no retry limit, or tries < maxRetries", g, gn), 2, "heap.Push(work, result.job) (re-issue the request)", find(fn, repush), 1, gDominate)
+	})
+
 	c.rule("C12.O3", workerPerPeerDoc, func() { c.workerPerPeer() })
 
 	c.rule("C12.O4", "a job is never handed to a dead worker: the dispatcher's blocking hand-over (the select that sends on worker.NewJob()) also waits on that worker's exit signal (activeWorker.onExit), and on that arm forgets the worker and moves on; a peer that disconnected between jobs would otherwise block the dispatcher, and every batch with it, until shutdown", func() {
